@@ -269,13 +269,15 @@ Definition anchor_present (sites : list site) (a : string * string * string * Z)
                     String.eqb what (s_detail s) && (h =? s_hash s)) sites.
 
 (* zones outside block processing in which order-sensitive constructs are accepted unreviewed.
-   generated-proto-msginfo: only KGlobal sites get this zone, and only the variables
-   `xxx_messageInfo_<Msg> proto.InternalMessageInfo` of *.pb.go files (the gogoproto runtime's lazily
-   built marshal table of one message type: a function of the message type alone).
+   generated-proto-runtime: only KGlobal sites get this zone, and only three exact shapes of
+   *.pb.go files, recognised by type + name + absence of other writes (harness/trans/sites/globals.go):
+   `xxx_messageInfo_<Msg> proto.InternalMessageInfo` (lazily built marshal table, a function of the
+   message type alone), `_<Svc>_serviceDesc grpc.ServiceDesc` (only passed by address to the
+   registrars), `<Enum>_name` / `<Enum>_value` (never written).
    Generated protobuf code (generated-proto) is deliberately NOT in this list: a map range in a
    Marshal method would be consensus relevant. *)
 Definition accepted_zones : list string :=
-  ["generated-gateway"; "generated-proto-msginfo"; "simulation"; "cli"; "testutil"; "docs"; "cmd"]%string.
+  ["generated-gateway"; "generated-proto-runtime"; "simulation"; "cli"; "testutil"; "docs"; "cmd"]%string.
 
 Definition str_mem (x : string) (l : list string) : bool := existsb (String.eqb x) l.
 
